@@ -12,10 +12,12 @@ MOD=.
 case "$DEMODIR" in lib/datastructures/*) MOD=lib/datastructures;; api/*) MOD=api;; esac
 REL=${DEMODIR#$MOD/}; [ "$MOD" = . ] && REL=$DEMODIR
 cp $S/demo_test.go $DEMO
+[ -f $S/demo_hook.diff ] && { git apply $S/demo_hook.diff || { echo "HOOK DOES NOT APPLY"; exit 2; }; }
 echo "== demo WITHOUT patch (expect PASS)"; (cd $MOD && CGO_ENABLED=${CGO:-0} go test -vet=off -count=1 ./$REL/ -run "${DEMORUN:-.}" >/tmp/sv.$$ 2>&1); r0=$?; tail -5 /tmp/sv.$$
 git apply $S/patch.diff || { echo "PATCH DOES NOT APPLY"; exit 2; }
 echo "== demo WITH patch (expect FAIL)"; (cd $MOD && CGO_ENABLED=${CGO:-0} go test -vet=off -count=1 ./$REL/ -run "${DEMORUN:-.}" >/tmp/sv.$$ 2>&1); r1=$?; tail -12 /tmp/sv.$$
 rm -f $DEMO
+[ -f $S/demo_hook.diff ] && git apply -R $S/demo_hook.diff
 echo "== existing tests WITH patch (expect PASS)"; r2=0
 for p in "$@"; do (cd $MOD && CGO_ENABLED=${CGO:-0} go test -vet=off -count=1 ./$p >/tmp/sv.$$ 2>&1); rc=$?; tail -4 /tmp/sv.$$; [ $rc -ne 0 ] && r2=1; done
 echo "RESULT without=$r0 with=$r1 existing=$r2  (want 0, nonzero, 0) — patch left APPLIED in $WT"
